@@ -274,7 +274,8 @@ FinalClauses(ev) ==
   } \cup TimeClauses(now)
 
 Clauses(ev) ==
-  CASE ev.a = "Wire"    -> WireClauses(ev)
+  \* (what a scripted peer writes is the stimulus, not the behaviour under judgement)
+  CASE ev.a = "Wire"    -> IF IsReal(ev.e) THEN WireClauses(ev) ELSE {}
     [] ev.a = "WireBad" -> { C({"C04", "C07"}, "WrittenOctetsDecodeIndependently", FALSE) }
     [] ev.a = "Handle"  -> HandleClauses(ev)
     [] ev.a = "Sig"     -> SigClauses(ev)
